@@ -178,7 +178,8 @@ RX_FLOAT = re.compile(r"[+-]?(?:(?:[0-9]+\.[0-9]*|\.[0-9]+)(?:[eE][+-]?[0-9]+)?|
 RX_SPECIAL = re.compile(r"[+-]?(?:NaN|Inf)\Z")
 RX_COMPLEX = re.compile(r"(?:[+-]?%s[jJ]|[+-]?%s[+-](?:%s)?[jJ]|[+-][jJ])\Z" % (_FL, _FL, _FL))
 SEPS = "_,"
-SEP_PRED_OK = set("0123456789abcdefABCDEF.eEjJxXoObB")
+SEP_PRED_OK = set("0123456789.eEjJxXoObB")      # a digit, '.', the exponent marker, j, a radix letter
+SEP_PRED_HEX = set("abcdefABCDEF")               # digits of a hexadecimal literal
 
 
 def number_form(core):
@@ -211,8 +212,11 @@ def classify(t):
     if not digs:
         return ("unspecified", "separator in a digit-free literal")
     if first_sep < digs[0]:
-        return ("not-number", "separator-before-first-digit")
+        if re.fullmatch(r"[+\-.]*", t[:first_sep]):
+            return ("not-number", "separator-before-first-digit")
+        return ("unspecified", "separator after a digit-free part")
+    ok = SEP_PRED_OK | (SEP_PRED_HEX if re.match(r"[+-]?0[xX]", core) else set())
     for i, c in enumerate(t):
-        if c in SEPS and t[i - 1] not in SEPS and t[i - 1] not in SEP_PRED_OK:
+        if c in SEPS and t[i - 1] not in SEPS and t[i - 1] not in ok:
             return ("unspecified", "separator after %r" % t[i - 1])
     return ("number",) + f
